@@ -665,6 +665,8 @@ def run_outcome(mod):
         res = mod.main(log)
     except BaseException as e:  # noqa
         exc = e
+    # the whole module namespace belongs to the "final data": names that appear, disappear or change value
+    names = {k: canon_value(v) for k, v in sorted(vars(mod).items()) if not k.startswith('__')}
     return {'result': canon_value(res), 'exception': canon_value(exc) if exc is not None else None,
             'log': canon_value(log), 'state': canon_value(getattr(mod, 'STATE', None)),
-            'flag': canon_value(getattr(mod, 'MODULE_FLAG', None))}
+            'flag': canon_value(getattr(mod, 'MODULE_FLAG', None)), 'module_namespace': names}
